@@ -32,7 +32,13 @@ bool ObsOn(const std::string& prefix)
 
 void RegisterOp(const std::string& name, OpFn fn) { Ops()[name] = fn; }
 void RegisterCaseEnd(std::function<void()> fn) { CaseEnds().push_back(fn); }
-void Out(const std::string& line) { (*l_Out) << line << "\n"; }
+void Out(const std::string& line)
+{
+	(*l_Out) << line << "\n";
+	// a case may legitimately crash the process (C15): make sure the runner sees which case it was
+	if (line.compare(0, 5, "case ") == 0)
+		l_Out->flush();
+}
 std::string ScratchDir() { return l_Scratch; }
 long CaseId() { return l_Case; }
 
@@ -135,12 +141,14 @@ int main(int argc, char **argv)
 			if (op == "case") {
 				l_Case = std::stol(a.pos.at(0));
 				Out("case " + a.pos.at(0));
+				l_Out->flush(); // a crash inside the case must not lose the case marker (runner attributes the CRASH to it)
 			} else if (op == "obs") {
 				l_ObsAll = false;
 				l_Obs = a.pos;
 			} else if (op == "end") {
 				for (auto& f : CaseEnds()) f();
 				Out("end");
+				l_Out->flush();
 			} else {
 				auto it = Ops().find(op);
 				if (it == Ops().end()) { std::cerr << "unknown op '" << op << "' line " << lineno << "\n"; return 2; }
